@@ -449,6 +449,107 @@ func TestC19(t *testing.T) {
 			}
 		}
 	}
+	// (8) the environment is described by one Capabilities value that the caller updates in
+	// place between calls (every ordered pair of tuples): FromCapabilities answers for the
+	// values the struct holds at the time of the call
+	{
+		var tuples []capCase
+		for _, os := range []plugin.OS{plugin.OSLinux, plugin.OSWindows, plugin.OSMac, plugin.OSAny} {
+			for _, nw := range []plugin.Network{plugin.NetworkOffline, plugin.NetworkOnline} {
+				for _, d := range []bool{false, true} {
+					for _, r := range []bool{false, true} {
+						tuples = append(tuples, capCase{OS: int(os), Network: int(nw), Direct: d, Running: r})
+					}
+				}
+			}
+		}
+		for _, a := range tuples {
+			for _, b := range tuples {
+				capabs := &plugin.Capabilities{OS: plugin.OS(a.OS), Network: plugin.Network(a.Network), DirectFS: a.Direct, RunningSystem: a.Running}
+				_ = el.FromCapabilities(capabs)
+				_ = sl.FromCapabilities(capabs)
+				_ = dl.FromCapabilities(capabs)
+				capabs.OS, capabs.Network, capabs.DirectFS, capabs.RunningSystem = plugin.OS(b.OS), plugin.Network(b.Network), b.Direct, b.Running
+				got := map[string][]string{"filesystem": names(el.FromCapabilities(capabs)), "standalone": names(sl.FromCapabilities(capabs)), "detector": names(dl.FromCapabilities(capabs))}
+				want := map[string][]string{}
+				for _, p := range fsAll {
+					if satisfies(p.Requirements(), b) {
+						want["filesystem"] = append(want["filesystem"], p.Name())
+					}
+				}
+				for _, p := range saAll {
+					if satisfies(p.Requirements(), b) {
+						want["standalone"] = append(want["standalone"], p.Name())
+					}
+				}
+				for _, p := range detAll {
+					if satisfies(p.Requirements(), b) {
+						want["detector"] = append(want["detector"], p.Name())
+					}
+				}
+				var err error
+				for _, kind := range []string{"filesystem", "standalone", "detector"} {
+					w := append([]string{}, want[kind]...)
+					sort.Strings(w)
+					if strings.Join(got[kind], ",") != strings.Join(w, ",") && err == nil {
+						err = fmt.Errorf("%s FromCapabilities(%+v), called after the same struct had held %+v: got %v, want %v", kind, *capabs, a, got[kind], w)
+					}
+				}
+				cc := b
+				cc.Check, cc.Name = "from_capabilities_after_update", fmt.Sprintf("first=%d/%d/%v/%v", a.OS, a.Network, a.Direct, a.Running)
+				if !e.Report(cc, ev.Outcome{NonTrivial: a != b, Classes: []string{"from_capabilities_after_update"}}, err) {
+					return
+				}
+			}
+		}
+	}
+	// (9) every plugin name an exported group map advertises resolves on its own to that plugin
+	{
+		type adv struct {
+			kind, group, key string
+		}
+		var advs []adv
+		for g, m := range fsGroups {
+			for _, k := range keysOf(m) {
+				advs = append(advs, adv{"filesystem", g, k})
+			}
+		}
+		for g, m := range saGroups {
+			for _, k := range keysOfSA(m) {
+				advs = append(advs, adv{"standalone", g, k})
+			}
+		}
+		for g, m := range detGroups {
+			for _, k := range keysOfDet(m) {
+				advs = append(advs, adv{"detector", g, k})
+			}
+		}
+		sort.Slice(advs, func(i, j int) bool { return fmt.Sprint(advs[i]) < fmt.Sprint(advs[j]) })
+		for _, a := range advs {
+			var got []string
+			var rerr error
+			switch a.kind {
+			case "filesystem":
+				l, e2 := el.ExtractorsFromNames([]string{a.key})
+				got, rerr = names(l), e2
+			case "standalone":
+				l, e2 := sl.ExtractorsFromNames([]string{a.key})
+				got, rerr = names(l), e2
+			case "detector":
+				l, e2 := dl.DetectorsFromNames([]string{a.key})
+				got, rerr = names(l), e2
+			}
+			var err error
+			if rerr != nil {
+				err = fmt.Errorf("%s name %q, advertised by the exported group map %q, does not resolve: %v", a.kind, a.key, a.group, rerr)
+			} else if len(got) == 0 {
+				err = fmt.Errorf("%s name %q (group map %q) resolves to nothing", a.kind, a.key, a.group)
+			}
+			if !e.Report(capCase{Check: "resolve_advertised_name", Kind: a.kind, Name: a.group + ":" + a.key}, ev.Outcome{NonTrivial: true, Classes: []string{"resolve_advertised_name"}}, err) {
+				return
+			}
+		}
+	}
 	// (7) two names resolved together: no plugin twice, and exactly the plugins the two names
 	// resolve to one by one (every ordered pair of registry keys and group names)
 	{
